@@ -272,6 +272,15 @@ def echo_kwargs(channel, **kw):
     channel.send(__name__)  # noqa: F821
 
 
+def deep_raise(channel, depth=3):
+    def down(n):
+        if n == 0:
+            raise LookupError("deep-raise")  # MARK-DEEP
+        return down(n - 1)
+
+    down(depth)
+
+
 def check_kwargs(channel, text, data, n):
     ok = type(text) is str and text == "t\u20ac" and type(data) is bytes and data == b"d" and n == 1
     channel.send(1 if ok else 0)
